@@ -183,6 +183,9 @@ HAND_CASES = [
     ("Base: s\nMacro: M1\n    Mark: a\n    Wait: 1s\n    Mark: b\nCall macro: M1\nCall macro: M1\nCall macro: M1", "0.1", 90, []),
     ("Base: s\nMacro: M1\n    Wait: 0.75s\n    Mark: b\nCall macro: M1\nMark: m\nCall macro: M1", "0.1", 70, [(30, "Pause"), (36, "Unpause")]),
     ("Base: s\nAlarm: T0 > 0\n    Mark: a\n    Wait: 0.75s\n    Mark: b", "0.1", 90, [(40, "Hold"), (44, "Unhold")]),
+    # durations in minutes and hours, also below 0.1 of the unit: 1.2 s, 3.6 s, 3 s, 0.9 s
+    ("Base: s\nWait: 0.02min\nMark: a\nWait: 0.001h\nMark: b\nWait: 0.05 min\nMark: c\nWait: 0.00025h\nMark: d", "0.1", 120,
+     [(30, "Pause"), (36, "Unpause")]),
     # volume / column-volume base units (totalizer 0.25 L per tick, column volume 2 L): outside and inside blocks
     ("Base: L\n1 Mark: a\nBlock: B\n    Mark: p\n    0.75 Mark: x\n    End block\n0.5 Mark: y\nBase: mL\n6000 Mark: w", "0.1", 60, []),
     ("Base: CV\n0.5 Mark: a\nBlock: C\n    Mark: p\n    0.5 Mark: z\n    Watch: T0 > 0\n        0.25 Mark: w\n    1.5 End block\n2 Mark: e", "0.1", 80,
